@@ -1,5 +1,238 @@
-(* Eval10.v — evaluation of C10 observations (stub: replaced when C10 is built). *)
+(* Eval10.v — evaluation of C10 observations.
+   (rewrite OLD EXPECTED TOKS_BASE SUBST TOKS_OBS OBSERVED)
+       one user file rewritten by goderive -autoname/-dedup:
+       OLD       bytes of the file before the run
+       EXPECTED  go/format of OLD with the renamed call identifiers substituted by position
+                 (computed by the harness from an independent go/parser parse)
+       TOKS_BASE tokens (kind bytes) of go/format(OLD); SUBST ((pos name)...) the renamed
+                 call identifiers as token positions; TOKS_OBS tokens of OBSERVED
+       OBSERVED  bytes of the file after the run
+   (effects (A D) PLUGINS RESERVED DERIVED_BEFORE VIEWS (OUTCOME TOUCHED NAMES DERIVED_AFTER))
+       the file effects of one goderive run on one package, against [run]. *)
 From Verif Require Import Base Sexp.
+From Verif.Rewrite Require Import Files Tokens Names Effects.
 Open Scope string_scope.
 
-Definition eval10 (e : sexp) : verdict := bad_line.
+Definition get_tok (e : sexp) : option token :=
+  match e with
+  | L [Num k; b] =>
+      match get_ns b with
+      | Some s => Some (if (k =? 0)%Z then TIdent s else if (k =? 1)%Z then TOther s else TComment s)
+      | None => None
+      end
+  | _ => None
+  end.
+Definition get_toks (e : sexp) : option (list token) :=
+  match e with L l => map_opt get_tok l | _ => None end.
+Definition get_subst (e : sexp) : option subst :=
+  match e with
+  | L l => map_opt (fun x => match x with
+                             | L [p; n] => match get_nat p, get_ns n with
+                                           | Some p', Some n' => Some (p', n')
+                                           | _, _ => None end
+                             | _ => None end) l
+  | _ => None
+  end.
+
+Fixpoint toks_eqb (a b : list token) : bool :=
+  match a, b with
+  | [], [] => true
+  | x :: a', y :: b' => token_eqb x y && toks_eqb a' b'
+  | _, _ => false
+  end.
+
+Definition len_rel (old new : bytes) : string :=
+  match Nat.compare (List.length new) (List.length old) with
+  | Lt => "shorter" | Eq => "equal" | Gt => "longer" end.
+
+Definition eval_rewrite (old expected : bytes) (base : list token) (sg : subst)
+           (obs_toks : list token) (observed : bytes) : verdict :=
+  let model_bytes := open_write Trunc old expected in
+  let model_toks := rename sg base in
+  let rel := len_rel old expected in
+  let exact := bytes_eqb observed expected in
+  let code_same := toks_eqb (filter (fun t => negb (is_comment t)) obs_toks)
+                            (filter (fun t => negb (is_comment t)) model_toks) in
+  let comments_same := toks_eqb (filter is_comment obs_toks) (filter is_comment model_toks) in
+  if exact then
+    {| v_known := true;
+       v_model_ok := bytes_eqb observed model_bytes && toks_eqb obs_toks model_toks;
+       v_spec_ok := true; v_guard := true; v_model := of_ns model_bytes;
+       v_tag := "rewrite/" ++ rel ++ (match sg with [_] => "/1-renamed" | _ => "/n-renamed" end) |}
+  else if code_same && comments_same then
+    (* every token retained in order, only white space / the placement of comments between
+       tokens differs from gofmt: the renamed identifier was given no source position *)
+    {| v_known := true; v_model_ok := true; v_spec_ok := false; v_guard := false;
+       v_model := of_ns model_bytes; v_tag := "known:c10-rename-layout/" ++ rel |}
+  else
+    {| v_known := true; v_model_ok := false; v_spec_ok := false; v_guard := true;
+       v_model := of_ns model_bytes;
+       v_tag := "rewrite/" ++ rel ++
+                (if bytes_eqb observed (open_write NoTrunc old expected) then "/old-tail-left"
+                 else "/corrupt") |}.
+
+(* ---------- effects ---------- *)
+
+Definition get_bool (e : sexp) : option bool := option_map (fun z => negb (z =? 0)%Z) (get_num e).
+
+Definition get_call (pos : nat) (e : sexp) : option call :=
+  match e with
+  | L [n; ty; b; va; un; ge] =>
+      match get_ns n, get_nat ty, get_ns b, get_bool va, get_bool un, get_bool ge with
+      | Some n', Some ty', Some b', Some va', Some un', Some ge' =>
+          Some {| c_name := n'; c_pos := pos; c_ty := ty'; c_base := b'; c_valid := va';
+                  c_undef := un'; c_genok := ge' |}
+      | _, _, _, _, _, _ => None
+      end
+  | _ => None
+  end.
+
+Fixpoint get_calls (pos : nat) (l : list sexp) : option (list call) :=
+  match l with
+  | [] => Some []
+  | e :: r => match get_call pos e, get_calls (S pos) r with
+              | Some c, Some cs => Some (c :: cs)
+              | _, _ => None
+              end
+  end.
+
+Fixpoint get_files (i : nat) (l : list sexp) : option (list file) :=
+  match l with
+  | [] => Some []
+  | L cs :: r => match get_calls 0 cs, get_files (S i) r with
+                 | Some cs', Some fs => Some ({| f_path := User i; f_toks := []; f_calls := cs'; f_parses := true |} :: fs)
+                 | _, _ => None
+                 end
+  | _ => None
+  end.
+
+Definition get_names (e : sexp) : option (list name) :=
+  match e with L l => map_opt get_ns l | _ => None end.
+
+Definition get_view (plugins reserved : list name) (e : sexp) : option pkg :=
+  match e with
+  | L [lo; L fs] =>
+      match get_bool lo, get_files 0 fs with
+      | Some lo', Some fs' => Some {| p_loads := lo'; p_plugins := plugins; p_reserved := reserved;
+                                      p_files := fs' |}
+      | _, _ => None
+      end
+  | _ => None
+  end.
+
+Definition outcome_sym (o : outcome10) : string :=
+  match o with
+  | Success => "ok" | LoadError => "loaderr" | AddError => "adderr" | GeneratorError => "generr"
+  | CannotGenerate => "cannot" | Crash => "crash" | OutOfViews => "outofviews" end.
+
+Fixpoint insert_nat (x : nat) (l : list nat) : list nat :=
+  match l with
+  | [] => [x]
+  | y :: r => if Nat.ltb x y then x :: l else if Nat.eqb x y then l else y :: insert_nat x r
+  end.
+
+Definition touched_users (ops : list op) : list nat :=
+  fold_left (fun acc o => match op_path o with User i => insert_nat i acc | _ => acc end) ops [].
+
+Definition derived_after (before : bool) (ops : list op) : bool :=
+  fold_left (fun b o => match o with
+                        | OCreate Derived _ => true
+                        | ORemove Derived => false
+                        | _ => b end) ops before.
+
+(* the identifiers at the call sites of a file once the naming pass has gone over it *)
+Definition names_after (l : list (file * subst)) (f : file) : list name :=
+  let sg := match find (fun e => path_eqb (f_path (fst e)) (f_path f)) l with
+            | Some e => snd e | None => [] end in
+  map (fun c => match lookup (c_pos c) sg with Some n => n | None => c_name c end) (f_calls f).
+
+Definition names_sexp (ns : list (list name)) : sexp := L (map (fun l => L (map of_ns l)) ns).
+
+Fixpoint names2_eqb (a b : list (list name)) : bool :=
+  match a, b with
+  | [], [] => true
+  | x :: a', y :: b' => names_eqb x y && names2_eqb a' b'
+  | _, _ => false
+  end.
+
+Fixpoint nats_eqb (a b : list nat) : bool :=
+  match a, b with
+  | [], [] => true
+  | x :: a', y :: b' => Nat.eqb x y && nats_eqb a' b'
+  | _, _ => false
+  end.
+
+Fixpoint changed_files (i : nat) (orig real : list (list name)) : list nat :=
+  match orig, real with
+  | o :: orig', r :: real' => (if names_eqb o r then [] else [i]) ++ changed_files (S i) orig' real'
+  | _, _ => []
+  end.
+
+Definition count_tag (n : nat) : string :=
+  match n with 0 => "0" | 1 => "1" | _ => "2+" end.
+
+Definition eval_effects (fl : flags) (dbefore : bool) (views : list pkg) (real : sexp) : verdict :=
+  match views with
+  | [] => bad_line
+  | v :: _ =>
+    let '(ops, out) := run true Trunc (fun _ => []) (fun _ => []) fl views in
+    let passed := fst (names_pass true fl v) in
+    let orig := map (fun f => map c_name (f_calls f)) (p_files v) in
+    let m_names := map (names_after (if p_loads v then passed else [])) (p_files v) in
+    let m_touched := touched_users ops in
+    let m_dafter := derived_after dbefore ops in
+    let model := L [Sym (outcome_sym out); L (map of_nat m_touched); names_sexp m_names; of_bool m_dafter] in
+    let tag := "effects/" ++ (if autoname fl then "autoname" else "") ++ (if dedup fl then "dedup" else "")
+               ++ (if autoname fl || dedup fl then "" else "noflags") ++ "/" ++ outcome_sym out
+               ++ "/rewritten=" ++ count_tag (List.length m_touched) in
+    match real with
+    | L [Sym ro; rt; L rn; rd] =>
+        match map_opt get_nat (match rt with L l => l | _ => [] end), map_opt get_names rn, get_bool rd with
+        | Some r_touched, Some r_names, Some r_dafter =>
+            let noflags := negb (autoname fl) && negb (dedup fl) in
+            let spec :=
+              (* both flags off: nothing but derived.gen.go, whatever the outcome *)
+              (if noflags then nats_eqb r_touched [] && names2_eqb r_names orig else true)
+              (* a user file is written iff one of its calls was renamed *)
+              && nats_eqb r_touched (changed_files 0 orig r_names)
+              (* a load error leaves everything as it was *)
+              && (if String.eqb ro "loaderr" then nats_eqb r_touched [] && Bool.eqb r_dafter dbefore else true)
+              (* the "unreachable" panic *)
+              && negb (String.eqb ro "crash")
+              (* exactly the calls renamed by the naming pass are substituted, by their new
+                 names (compared when the run ended the way the naming pass says) *)
+              && (if String.eqb ro (outcome_sym out) then names2_eqb r_names m_names else true) in
+            {| v_known := true; v_model_ok := sexp_eqb model real; v_spec_ok := spec;
+               v_guard := match out with OutOfViews => false | _ => true end;
+               v_model := model; v_tag := tag |}
+        | _, _, _ => bad_line
+        end
+    | _ => bad_line
+    end
+  end.
+
+Definition eval10 (e : sexp) : verdict :=
+  match e with
+  | L [Sym k; old; expected; base; sg; otoks; observed] =>
+      if String.eqb k "rewrite" then
+        match get_ns old, get_ns expected, get_toks base, get_subst sg, get_toks otoks, get_ns observed with
+        | Some old', Some exp', Some base', Some sg', Some otoks', Some obs' =>
+            eval_rewrite old' exp' base' sg' otoks' obs'
+        | _, _, _, _, _, _ => bad_line
+        end
+      else if String.eqb k "effects" then
+        match old, expected, base, sg, otoks with
+        | L [a; d], pl, rs, db, L vs =>
+            match get_bool a, get_bool d, get_names pl, get_names rs, get_bool db with
+            | Some a', Some d', Some pl', Some rs', Some db' =>
+                match map_opt (get_view pl' rs') vs with
+                | Some views => eval_effects {| autoname := a'; dedup := d' |} db' views observed
+                | None => bad_line
+                end
+            | _, _, _, _, _ => bad_line
+            end
+        | _, _, _, _, _ => bad_line
+        end
+      else bad_line
+  | _ => bad_line
+  end.
